@@ -6,6 +6,7 @@ package xpath
 
 import (
 	"fmt"
+	"time"
 	"math"
 	"os/exec"
 	"os"
@@ -937,4 +938,167 @@ func TestProbe_context(t *testing.T) {
 			}
 		}
 	}
+}
+
+func TestProbe_purity(t *testing.T) {
+	docs := []string{
+		`<r><a x="1" y="2"><b i="1"><g/>t</b><c/></a><d z="3"/><b i="5"/><a><b i="2"/><b w="1" i="3"/></a><a/></r>`,
+		`<r a="1"><r a="2"><r><b/></r></r>text<b/><a><a><b/></a></a><!--c--></r>`,
+	}
+	exprs := []string{"//b", "//a[b]", "//b[1]", "(//b)[2]", "//b[last()]", "//a | //b", "//b/following::*", "//b/preceding::*", "//b/ancestor::*", "count(//b)", "sum(//@i)", "string(//b/@i)", "//a[count(b)>1]", "//b[position()=2]", "//*[@i>1 and @i<5]", "concat(//b/@i, 'x')", "//b[../c]", "//a[b[@i>1]]", "reverse(//b)", "//b[not(@w)]", "string-join(//b/@i, ',')", "//a/b[2]/@i", "boolean(//g)", "//b = //c", "//@i > 2", "normalize-space(//b)", "substring(//b/@i, 1)", "translate(//a/@x, '1', 'z')", "//a[.//g]", "(//a | //d)[2]", "//r[b]", "//r/r", "name(//*[2])", "local-name(/r/*[1])", "/r/a[1]/b | /r/a[2]/b", "/r/*[self::a or self::d]", "lower-case(name(/*))", "//b[@i = //b/@i]", "starts-with(name(//b), 'b')"}
+	render := func(v interface{}) string {
+		if it, ok := v.(*NodeIterator); ok {
+			var out []string
+			for k := 0; it.MoveNext() && k < 1000; k++ {
+				cur := it.Current().(*TNodeNavigator)
+				out = append(out, fmt.Sprintf("%p/%d", cur.curr, cur.attr))
+			}
+			return strings.Join(out, " ")
+		}
+		return fmt.Sprint(v)
+	}
+	for _, ds := range docs {
+		root := wdoc(ds)
+		nav := func(n *TNode) *TNodeNavigator { return &TNodeNavigator{curr: n, root: root, attr: -1} }
+		ctxs := []*TNode{root, root.FirstChild, root.FirstChild.FirstChild}
+		var compiled []*Expr
+		for _, ex := range exprs {
+			e, err := Compile(ex)
+			if err != nil {
+				t.Fatalf("%s: %v", ex, err)
+			}
+			compiled = append(compiled, e)
+		}
+		first := map[string]string{}
+		for round := 0; round < 3; round++ {
+			for i, e := range compiled {
+				for j, c := range ctxs {
+					key := fmt.Sprintf("%d/%d", i, j)
+					var got string
+					func() {
+						defer func() {
+							if r := recover(); r != nil {
+								got = fmt.Sprint("panic: ", r)
+							}
+						}()
+						if round == 1 {
+							// partial consumption in between
+							it := e.Select(nav(c))
+							it.MoveNext()
+						}
+						got = render(e.Evaluate(nav(c)))
+						if _, isIt := e.Evaluate(nav(c)).(*NodeIterator); isIt {
+							got2 := render(interface{}(e.Select(nav(c))))
+							if got2 != got {
+								t.Errorf("doc %q %s at ctx %d: Evaluate gives %q, Select %q", ds, exprs[i], j, got, got2)
+							}
+						}
+					}()
+					if round == 0 {
+						first[key] = got
+					} else if first[key] != got {
+						t.Errorf("doc %q %s at ctx %d: round %d gives %q, first round %q", ds, exprs[i], j, round, got, first[key])
+					}
+				}
+			}
+		}
+	}
+}
+
+func TestProbe_compileTotal(t *testing.T) {
+	toks := []string{"a", "b:c", "*", "/", "//", ".", "..", "@", "[", "]", "(", ")", "|", "=", "!=", "<", "<=", ">", ">=", "+", "-", "div", "mod", "and", "or", ",", "1", "2.5", ".5", "'s'", "\"t\"", "::", "child::", "ancestor::", "text()", "node()", "count(", "position()", "last()", "$v", " ", "\t", "not(", "processing-instruction(", "comment()", "x:*", "1e3", "''", "'", "\"", "#", "!", "{", "\x00", "é", "self::node()", "a[1]", "true()", "concat(", "namespace::x"}
+	seed := uint64(12345)
+	rnd := func(n int) int {
+		seed = seed*6364136223846793005 + 1442695040888963407
+		return int((seed >> 33) % uint64(n))
+	}
+	for i := 0; i < 300000; i++ {
+		var sb strings.Builder
+		for k := rnd(8) + 1; k > 0; k-- {
+			sb.WriteString(toks[rnd(len(toks))])
+			if rnd(3) == 0 {
+				sb.WriteByte(' ')
+			}
+		}
+		s := sb.String()
+		func() {
+			defer func() {
+				if r := recover(); r != nil {
+					t.Errorf("Compile(%q) panicked: %v", s, r)
+				}
+			}()
+			e, err := Compile(s)
+			if (e == nil) == (err == nil) {
+				t.Errorf("Compile(%q) = (%v, %v)", s, e, err)
+			}
+		}()
+		if t.Failed() {
+			break
+		}
+	}
+}
+
+// (reverse( is left out of the token list: reverse(<comparison>) never finishes — a comparison used as
+// a node-set yields its context node for ever; a type error in XPath terms, outside the statements.)
+func TestProbe_evalNoRuntimeError(t *testing.T) {
+	toks := []string{"a", "b", "*", "/", "//", ".", "..", "@x", "@*", "[", "]", "(", ")", "|", "=", "!=", "<", ">", "+", "-", "div", "mod", "and", "or", ",", "1", "2.5", "0", "'s'", "''", "child::", "ancestor::", "following::", "preceding::", "descendant::", "parent::", "self::", "attribute::", "following-sibling::", "preceding-sibling::", "text()", "node()", "count(", "position()", "last()", "not(", "sum(", "string(", "number(", "boolean(", "concat(", "contains(", "starts-with(", "substring(", "string-length(", "normalize-space(", "translate(", "name(", "local-name(", "floor(", "ceiling(", "round(", "true()", "false()", "string-join(", "ends-with(", "lower-case(", "substring-before(", "substring-after(", "matches(", "replace(", "namespace-uri("}
+	seed := uint64(777)
+	rnd := func(n int) int {
+		seed = seed*6364136223846793005 + 1442695040888963407
+		return int((seed >> 33) % uint64(n))
+	}
+	root := wdoc(`<r><a x="1" y="q"><b i="1"><g/>t</b><c/>  12 </a><d z="3"/><b i="x"/><a><b i="2"/><b w="1" i="3"/></a><a/><!--k--></r>`)
+	ctxs := []*TNodeNavigator{{curr: root, root: root, attr: -1}, {curr: root.FirstChild.FirstChild, root: root, attr: -1}, {curr: root.FirstChild.FirstChild, root: root, attr: 0}}
+	ok := 0
+	hangs := 0
+	for i := 0; i < 400000 && hangs <= 5; i++ {
+		var sb strings.Builder
+		for k := rnd(7) + 1; k > 0; k-- {
+			sb.WriteString(toks[rnd(len(toks))])
+		}
+		s := sb.String()
+		e, err := Compile(s)
+		if err != nil {
+			// try to close parentheses
+			d := strings.Count(s, "(") - strings.Count(s, ")")
+			if d < 0 {
+				continue
+			}
+			s2 := s + strings.Repeat(")", d)
+			if e, err = Compile(s2); err != nil {
+				continue
+			}
+			s = s2
+		}
+		ok++
+		for _, c := range ctxs {
+			done := make(chan bool, 1)
+			go func() {
+				defer func() {
+					if r := recover(); r != nil {
+						if _, isRT := r.(interface{ RuntimeError() }); isRT {
+							t.Errorf("%q: Go runtime error: %v", s, r)
+						}
+					}
+					done <- true
+				}()
+				cc := *c
+				v := e.Evaluate(&cc)
+				if it, isIt := v.(*NodeIterator); isIt {
+					for k := 0; it.MoveNext() && k < 2000; k++ {
+					}
+				}
+			}()
+			select {
+			case <-done:
+			case <-time.After(2 * time.Second):
+				t.Errorf("%q: evaluation does not finish", s)
+				hangs++
+			}
+			if hangs > 5 {
+				return
+			}
+		}
+	}
+	t.Logf("%d expressions compiled and were evaluated", ok)
 }
